@@ -207,10 +207,12 @@ def check_C09(ctx, rep):
                 def opt(X, some, none):
                     return ("switch", mk("discr", X), ((0, none), (1, some)), ("unreachable",))
                 wide = lambda last: opt(Ic, via(Ic, "i128"), opt(Uc, via(Uc, "u128"), last))
-                small = cmp("le", call("libm::fabs", pay(Fc)), c64(2.0 ** 53))
+                # strictly below 2^53: RN(n) = 2^53 is also the image of the integers 2^53 + 1 and -(2^53 + 1), which the f64 route
+                # would return as 2^53 (defect D9, fixed); every integer whose image is below 2^53 in magnitude is its image
+                small = cmp("lt", call("libm::fabs", pay(Fc)), c64(2.0 ** 53))
                 ref = opt(Fc, IF(small, via(Fc, "f64"), wide(via(Fc, "f64"))), wide(NONE_))
                 expect_equiv(rep, "R23", "NumCast::from route table", "numcast-routes", tr, ref, b,
-                             "to_f64: |f| <= 2^53 -> from(f); else to_i128 -> from, else to_u128 -> from, else from(f); no f64: to_i128, to_u128, None")
+                             "to_f64: |f| < 2^53 -> from(f); else to_i128 -> from, else to_u128 -> from, else from(f); no f64: to_i128, to_u128, None")
     from . import rules_total
     rules_total.totality(rep, f, "R24", rules_total.entries_C09(f), "conversions", min_sites=0, min_entries=60)
     rep.floor("R21", len([o for o in rep.obl if o["rule"] == "R21"]), 22, "small-int and float conversions")
